@@ -244,3 +244,53 @@ def _walk_uses(run, f, res, obv, link, inplace, RULE):
                    ref.get("n"), n.get("f"), n.get("l"), ks2[0][3], ks2[0][2], "moved or destructed" if inplace else "destructed", ref.get("n"), "another inventory" if inplace else "the list of destructed objects"),
                f.file, n.get("l"), f.name, what="%s follows %s out of an object a callback may have unlinked" % (f.name, n.get("f")))
     return nw
+
+
+def check_loaded(run, prog, RULE="C08-k"):
+    """An object pointer read out of a value (`sv.u.ob` of an array item, a mapping value, an efun argument)
+    is not known to be alive: values keep pointing at destructed objects until LPC reads them, and an efun's
+    earlier arguments were pushed before its later ones were evaluated.  Handing such a pointer to
+    apply()/apply_low() needs a test of O_DESTRUCTED between the load and the call."""
+    n_ = 0
+    for f in sorted(prog.functions(), key=lambda x: (x.file, x.line)):
+        if "/src/" not in f.file and "/lib/" not in f.file:
+            continue
+        sites = [(b, i, n) for b, i, n in f.calls() if n.get("fn") in APPLY_OBJ_ARG and len(n.get("args", [])) > APPLY_OBJ_ARG[n["fn"]]]
+        if not sites:
+            continue
+        obv = ob_vars(f)
+
+        def from_value(e):
+            e = strip(e)
+            return e.get("k") == "Mem" and e.get("f") == "ob" and e.get("rec") == "svalue_u"
+        for j, (b, i, n) in enumerate(sites):
+            a = strip(n["args"][APPLY_OBJ_ARG[n["fn"]]])
+            src = None
+            if from_value(a):
+                src = a
+            elif a.get("k") == "Ref" and a.get("d") in ("local", "slocal") and a.get("id") is not None:
+                defs = [n2["R"] for b2, i2, n2 in f.nodes() if n2.get("k") == "Asg" and n2.get("op") == "=" and strip(n2["L"]).get("k") == "Ref" and strip(n2["L"]).get("id") == a["id"]]
+                defs += [v["init"] for b2, i2, n2 in f.nodes() if n2.get("k") == "Decl" for v in n2.get("vars", ()) if v.get("id") == a["id"] and isinstance(v.get("init"), dict)]
+                for d in defs:
+                    if from_value(d):
+                        src = strip(d)
+            if src is None:
+                continue
+            n_ += 1
+            run.saw(f)
+            tested = False
+            for c, t, B in cfgq.guards(f, b.id):
+                if a.get("k") == "Ref" and a.get("id") in [x for x in alive_vars(c, t, obv) if not isinstance(x, tuple)]:
+                    tested = True
+                # the flag read through the value itself: !(sv.u.ob->flags & O_DESTRUCTED)
+                for at, tt in implied_atoms(c, t):
+                    e, t2 = normalize_cond(at, tt)
+                    e = strip(e)
+                    if not t2 and e.get("k") == "Bin" and e.get("op") == "&" and "O_DESTRUCTED" in (show(e) + str(e)) and any(y.get("k") == "Mem" and y.get("f") == "flags" and show(strip(y["b"])) == show(src) for y in walk(e)):
+                        tested = True
+            run.ob(RULE, "loaded:%s:%s:%d" % (rel(f.file), f.name, j), tested,
+                   "%s(.., %s ..) at line %s: `%s` is taken from a value and tested for O_DESTRUCTED before the call" % (n["fn"], show(a)[:24], n.get("l"), show(src)[:40]) if tested else
+                   "%s(.., %s ..) at line %s calls into the object read from `%s` without a test of O_DESTRUCTED: a value keeps pointing at an object after it was destructed (an array element nobody has read since, an efun argument pushed before a later argument destructed it), and %s() does not refuse destructed targets" % (
+                       n["fn"], show(a)[:24], n.get("l"), show(src)[:40], n["fn"]),
+                   f.file, n.get("l"), f.name, what="%s calls a function in a destructed object taken from `%s`" % (f.name, show(src)[:40]))
+    run.need(n_ >= 3, "apply-family calls on objects read out of values (found %d)" % n_)
